@@ -267,23 +267,18 @@ Proof. exact leaf_ok_matrix_axis. Qed.
 Print Assumptions matrix_axis_adjoint_partial.
 
 (* ResizingOperator (pad_const = 0; resize_array of C16 along axis 0, 1, ...) between uniformly weighted
-   discretisations with the same cell volume c.  [config_ok]: every axis offset in range and the padding legal
-   for the mode (C16).  (i) the separable resize and the separable adjoint resize taken in reverse axis order
-   are adjoint for EVERY configuration; (ii) the operator the code returns (same axis order in both
-   directions) is the adjoint when at most one axis is resized -- all 5 pad modes, all shapes/offsets.
+   discretisations with the same cell volume c, and the operator the code returns as its adjoint (same axis
+   order, axis 0 first, in both directions).  [config_ok]: every axis offset in range and the padding legal
+   for the mode (C16).  All 5 pad modes, all shapes/offsets, ANY number of axes resized at once (growing in some
+   and shrinking in others): uses C16.axis_order_immaterial.
    FULL STATEMENT for nodes_on_bdry spaces is false (finding resizing-adjoint-nodes-on-bdry). *)
-Theorem resizing_separable_adjoint : forall (c : R) (rm : C16.Syntax.pmode) (ish osh : list nat) (offs : list Z),
-  C16.ModelNd.config_ok rm ish osh offs = true ->
-  adj_pair (repeat c (prodn ish)) (repeat c (prodn osh))
-    (C16.ModelNd.sep_loop rm C16.Syntax.Forward 0%R true 1 ish osh offs)
-    (C16.ModelNd.sep_rev_loop rm C16.Syntax.Adjoint 0%R true 1 ish osh offs).
-Proof. exact resize_sep_adj_pair. Qed.
 Theorem resizing_adjoint_partial : forall (c : R) (rm : C16.Syntax.pmode) (ish osh : list nat) (offs : list Z),
-  C16.ModelNd.config_ok rm ish osh offs = true -> C16.PNd3.at_most_one ish osh offs = true ->
+  C16.ModelNd.config_ok rm ish osh offs = true ->
   leaf_ok (LResize (repeat c (prodn ish)) (repeat c (prodn osh)) rm ish osh offs) /\
   leaf_ok (LResizeAdj (repeat c (prodn osh)) (repeat c (prodn ish)) rm ish osh offs).
 Proof. exact leaf_ok_resize. Qed.
-(* Print Assumptions resizing_adjoint_partial: walks all of C16 (~30 s); its axioms are those of C16.Props.resize_adjoint_nd_single_axis *)
+(* Print Assumptions resizing_adjoint_partial: walks all of C16 (~30 s); its axioms are those of
+   C16.Props.axis_order_immaterial and resize_adjoint_nd *)
 
 (* Real <-> complex operators, realified (C^n = R^2n as re ++ im with weights w ++ w, so that
    [cinner] is the REAL PART of the complex inner product): RealPart/ImagPart of a real and of a
